@@ -51,14 +51,22 @@ MatchC09(e, d) ==
      /\ RangeOf(e.additions.coins) = {a.coin : a \in ExpectedAdditions(d.st)}
      /\ Len(e.additions.coins) = NumAdditions(d.st)
 
+\* recorded finding (known_findings.json, C09P): SpendBundle::additions refuses a bundle containing a condition whose
+\* opcode position holds a pair ("invalid condition"), which consensus ignores as an unknown condition
+HasPairOpcode(e) == \E i \in DOMAIN e.runs : e.runs[i].ok /\ \E c \in RangeOf(Elems(e.runs[i].res)) : IsPair(c) /\ IsPair(c.l)
+PairOpcodeRefusal(e, d) == d.ok /\ e.direct.ok /\ ~e.additions.ok /\ HasPairOpcode(e)
+                           /\ "errkind" \in DOMAIN e.additions /\ e.additions.errkind = "invalid-condition"
+
 VARIABLE l
 Init == l = 1 /\ MismatchInit
 Next == /\ l <= Len(Rec)
-        /\ LET e == NormSb(Rec[l]) d == Direct(e) IN
-             /\ CheckC(MatchC08(e, d), l, "C08")
-             /\ CheckC(MatchC02(e), l, "C02")
-             /\ CheckC(MatchC04(e, d), l, "C04")
-             /\ CheckC(MatchC09(e, d), l, "C09")
+        /\ LET e == NormSb(Rec[l]) IN
+             IF SbOpaque(e) THEN CheckC(MatchC02(e) /\ MatchLen(e), l, "C02")
+             ELSE LET d == Direct(e) IN
+                  /\ CheckC(MatchC08(e, d), l, "C08")
+                  /\ CheckC(MatchC02(e), l, "C02")
+                  /\ CheckC(MatchC04(e, d), l, "C04")
+                  /\ IF PairOpcodeRefusal(e, d) THEN NoteMismatch(l, "C09P") ELSE CheckC(MatchC09(e, d), l, "C09")
         /\ l' = l + 1
 Accepted_ == Report(TLCGet("stats").diameter - 1)
 =============================================================================
